@@ -8,11 +8,12 @@ import (
 	"fmt"
 	"os"
 	"sort"
+	"strings"
 	"testing"
 
 	"github.com/bitcoin-sv/block-headers-service/domains"
-	"github.com/bitcoin-sv/block-headers-service/internal/chaincfg/chainhash"
 	"github.com/bitcoin-sv/block-headers-service/internal/chaincfg"
+	"github.com/bitcoin-sv/block-headers-service/internal/chaincfg/chainhash"
 	exppeer "github.com/bitcoin-sv/block-headers-service/internal/transports/p2p/peer"
 	"github.com/bitcoin-sv/block-headers-service/internal/wire"
 	"github.com/bitcoin-sv/block-headers-service/repository"
@@ -286,6 +287,7 @@ type scenario struct {
 	Policy string         `json:"policy"`
 	Redel  []int          `json:"redelivery_order"`
 	Engine string         `json:"engine"`
+	Deep   bool           `json:"deep,omitempty"`
 }
 
 func TestCheck(t *testing.T) {
@@ -327,6 +329,57 @@ func TestCheck(t *testing.T) {
 				history(rep, u, seq, f.allRedel, f.reorgOnly)
 			}
 		})
+	}
+	idx++
+	if env.Mine(idx) && !rep.Expired() {
+		rep.Bound += "[one deep history: 520 + 521 headers, fault at every write of the reorganising submission] "
+		deepHistory(rep)
+	}
+}
+
+// deepHistory: one history whose last submission reorganises 520 headers off the longest chain
+// and 520 onto it; the fault falls at every write of that last submission (and only there).
+func deepHistory(rep *core.Report) {
+	const n = 520
+	nodes := make([]core.BNode, 2*n+2)
+	for i := 1; i <= n; i++ {
+		nodes[i] = core.BNode{Parent: i - 1, Bits: core.BitsLight}
+	}
+	nodes[n+1] = core.BNode{Parent: 0, Bits: core.BitsLight}
+	for i := n + 2; i <= 2*n+1; i++ {
+		nodes[i] = core.BNode{Parent: i - 1, Bits: core.BitsLight}
+	}
+	u := core.Fabricate(core.Blueprint{Nodes: nodes}, 0)
+	var seq []int
+	for i := 1; i <= 2*n+1; i++ {
+		seq = append(seq, i)
+	}
+	fr0 := &faultRepo{}
+	rig0 := core.NewRig(core.RigOpts{WrapHeaders: func(h repository.Headers) repository.Headers { fr0.Headers = h; return fr0 }})
+	for _, k := range seq {
+		safeAddNoKillRecover(rig0, u, k)
+	}
+	rows0 := core.DumpHeaders(rig0.DB)
+	rig0.Close()
+	if ok, why := core.CheckConsistent(rows0, core.ModelOf(u, 0, seq)); !ok {
+		rep.Outcome("skipped:deep history diverges from C01 model: " + why)
+		return
+	}
+	writes := fr0.log
+	first := len(writes)
+	for i, w := range writes {
+		if strings.HasPrefix(w, "update->") {
+			first = i
+			break
+		}
+	}
+	rep.States++
+	rep.Outcome(fmt.Sprintf("deep-reorg:%d writes in the reorganising submission", len(writes)-first))
+	for at := first + 1; at <= len(writes); at++ {
+		for _, mode := range []string{"kill", "fail"} {
+			sc := scenario{B: u.B, BStr: fmt.Sprintf("deep reorganisation, %d + %d headers", n, n+1), Seq: seq, Mode: mode, At: at, Policy: "stop", Redel: seq, Engine: "crashwalk", Deep: true}
+			one(rep, u, sc, true, writes[at-1])
+		}
 	}
 }
 
